@@ -29,7 +29,7 @@ func init() {
 	engine.Register(&engine.Check{
 		ID:         "C12",
 		Technique:  "exhaustive enumeration of ARP/NDP request and reply fields on the real stack; stateless model checking (deviation-bounded DFS in virtual time) of a resolution in progress under lost requests/replies, early timers, contradicting replies and concurrent askers; explicit-state search over the link-address cache against a reference map with expiry",
-		Rule:       "resp: op x target {own A1, own A2, foreign, broadcast} x sender menu x malformed sizes (ARP), solicitation targets and addressing (NDP); wait: UDP write / TCP connect to an unresolved next hop (direct and via gateway), every history dropping up to 3 requests or replies, answering with another MAC, announcing unsolicited, firing timers early, a second socket asking meanwhile; cache: all sequences of depth <=5 over lookup(a)/learn(a,m)/advance(30s|61s) on 3 addresses x 2 MACs + overflow of 520 neighbours; distinct = distinct input / choice sequence / sequence",
+		Rule:       "resp: op x target {own A1, own A2, foreign, broadcast} x sender menu x malformed sizes (ARP), solicitation targets and addressing (NDP); wait: UDP write / TCP connect to an unresolved next hop (direct and via gateway), every history with up to 2 (thorough 3) deviations: dropping a request or reply, answering with another MAC, announcing unsolicited, firing timers early, a second socket asking meanwhile; cache: all sequences of depth <=4 (thorough 5) over lookup(a)/learn(a,m)/advance(30s|61s) on 3 addresses x 2 MACs + overflow of 520 neighbours; distinct = distinct input / choice sequence / sequence",
 		Assumes:    []string{"the IPv6 NIC is given the solicited-node multicast address of its unicast address by the harness (configuration)", "'most recently learned address' is demanded for unconnected sockets, which resolve on every write; a connected socket keeps the route it resolved"},
 		Jobs:       c12Jobs,
 		Run:        c12Run,
